@@ -59,7 +59,9 @@ def units(tier, seed):
         us.append({"kind": "dev", "shape": [3, 3], "base": "converge", "maxdev": 2, "seed": seed, "maxinlets": 1, "part": [1, 4]})
         us.append({"kind": "dev", "shape": [3, 3], "base": "converge", "maxdev": 2, "seed": seed, "maxinlets": 1, "part": [2, 4]})
         us.append({"kind": "dev", "shape": [3, 3], "base": "converge", "maxdev": 2, "seed": seed, "maxinlets": 1, "part": [3, 4]})
+        us += mixed_units(tier, seed)
     else:
+        us += mixed_units(tier, seed)
         for u in _flow.shape_units(small + [((1, 5), "full"), ((5, 1), "full")], seed, target=400):
             u["maxinlets"] = 2
             us.append(u)
@@ -79,7 +81,51 @@ def units(tier, seed):
     return us
 
 
+MIXED_PAIRS_QUICK = [((1, 1), (2, 1)), ((2, 1), (3, 1)), ((1, 2), (2, 2)), ((1, 3), (3, 3))]
+MIXED_PAIRS_THOROUGH = MIXED_PAIRS_QUICK + [((1, 2), (3, 2)), ((1, 3), (2, 3)), ((2, 2), (3, 2)), ((2, 3), (3, 3))]
+
+
+def mixed_units(tier, seed):
+    """grids of two shapes with the same number of columns processed alternately in one process:
+    state kept between kernel calls (statics, caches keyed on part of the arguments) shows up here"""
+    us = []
+    for a, b in (MIXED_PAIRS_QUICK if tier == "quick" else MIXED_PAIRS_THOROUGH):
+        if b == (3, 3):
+            # 3x3: <= 2 deviations from the converging field, split in parts
+            for part in range(4):
+                us.append({"kind": "mixed", "shape": list(b), "prevshape": list(a), "mode": "dev", "part": [part, 4],
+                           "seed": seed, "maxinlets": 0})
+            continue
+        for u in _flow.shape_units([(b, "reduced")], seed, target=700):
+            u["kind"] = "mixed"
+            u["prevshape"] = list(a)
+            u["maxinlets"] = 0
+            us.append(u)
+    return us
+
+
+def prev_grids(shape, seed):
+    """endless cycle over every full-alphabet grid of the (small) previous shape"""
+    nr, nc = shape
+    alph = _flow.cell_alphabets(nr, nc, "reduced", seed)
+    while True:
+        for g in itertools.product(*alph):
+            yield list(g)
+
+
 def unit_grids(unit):
+    if unit["kind"] == "mixed":
+        if unit.get("mode") == "dev":
+            nr, nc = unit["shape"]
+            part = unit["part"]
+            for i, g in enumerate(_flow.deviation_grids(nr, nc, "converge", 2, unit["seed"])):
+                if i % part[1] == part[0]:
+                    yield g
+        else:
+            u2 = dict(unit, kind="grids")
+            for g in _flow.grids_of_unit(u2):
+                yield g
+        return
     if unit["kind"] == "grids":
         for g in _flow.grids_of_unit(unit):
             yield g
@@ -113,7 +159,7 @@ def inlet_sets(ntot, outlet, maxinlets):
             yield list(s)
 
 
-def check_grid(ctx, nrows, ncols, codes, maxinlets, default_nval=False, light=False):
+def check_grid(ctx, nrows, ncols, codes, maxinlets, default_nval=False, light=False, prev=None):
     from hydrodiy.gis.grid import delineate_river
     ntot = nrows * ncols
     m = FlowModel(nrows, ncols, codes)
@@ -122,6 +168,8 @@ def check_grid(ctx, nrows, ncols, codes, maxinlets, default_nval=False, light=Fa
     fd.data = arr
     ca.flowdir.data = arr
     base = {"shape": [nrows, ncols], "codes": list(codes), "maxinlets": maxinlets}
+    if prev is not None:
+        base["prev"] = prev         # the grid (of another shape) that was processed just before in this process
     nontriv = any(d >= 0 for d in m.down)
     ctx.states += 1
     allc = np.arange(ntot)
@@ -285,6 +333,27 @@ def check_grid(ctx, nrows, ncols, codes, maxinlets, default_nval=False, light=Fa
 def run_unit(unit, ctx):
     nrows, ncols = unit["shape"]
     first = True
+    if unit["kind"] == "mixed":
+        pr, pc = unit["prevshape"]
+        pg = prev_grids((pr, pc), unit["seed"])
+        # start the cycle at a position that depends on the unit so that units differ
+        for _ in range(sum(unit.get("prefix", [])) % 17 + (unit.get("part", [0])[0])):
+            next(pg)
+        for i, codes in enumerate(unit_grids(unit)):
+            if not ctx.sup.begin(i):
+                next(pg)
+                continue
+            pcodes = next(pg)
+            if first:
+                ctx.case(False, n=0, sample={"shape": [nrows, ncols], "codes": codes, "maxinlets": 0,
+                                             "prev": {"shape": [pr, pc], "codes": pcodes}})
+                first = False
+            # the previous grid is processed completely (its own violations are reported under its own case)
+            check_grid(ctx, pr, pc, pcodes, 0)
+            check_grid(ctx, nrows, ncols, codes, 0, prev={"shape": [pr, pc], "codes": pcodes})
+            ctx.count("mixed_shape_grid_pairs")
+            ctx.sup.end()
+        return
     for i, codes in enumerate(unit_grids(unit)):
         if not ctx.sup.begin(i):
             continue
@@ -297,6 +366,10 @@ def run_unit(unit, ctx):
 
 def crash_violation(unit, idx, status, stderr):
     codes = None
+    if unit["kind"] == "mixed":
+        return ("grid:%s:mixed-shapes" % ("hang" if "timeout" in status else "crash"),
+                {"shape": unit["shape"], "codes": None, "maxinlets": 0, "unit": unit, "index": idx},
+                "the interpreter did not survive grid pair %r of a mixed-shape unit: %s" % (idx, status))
     for i, g in enumerate(unit_grids(unit)):
         if i == idx:
             codes = g
@@ -320,5 +393,10 @@ def replay(case):
     from mc.explore import Result
     ctx = Result()
     nrows, ncols = case["shape"]
+    if case.get("prev"):
+        scratch = Result()
+        check_grid(scratch, case["prev"]["shape"][0], case["prev"]["shape"][1], case["prev"]["codes"], 0)
+        check_grid(ctx, nrows, ncols, case["codes"], case.get("maxinlets", 0), prev=case["prev"])
+        return [v for lst in ctx.violations.values() for v in lst]
     check_grid(ctx, nrows, ncols, case["codes"], case.get("maxinlets", 1))
     return [v for lst in ctx.violations.values() for v in lst]
